@@ -654,6 +654,34 @@ def run_c16(pid, tier):
             else: want = py_ident(op[2]) if op[0] == "A" else hashed_ident(op[1])
             if want.encode() not in got:
                 oracle_fail.append((h, "after a stylesheet was compiled (operation %d of %d) get_names() has no identifier %r for operation %d (keys: %r)" % (k + 1, len(h), want, i + 1, sorted(got)), None)); break
+    # add_files_as: the identifier is derived from the whole published name (prefix + "/" + relative path), so a file or directory
+    # whose own name begins with a digit gets no `n` of its own in the middle
+    import build_lib
+    wfiles = ["3d.js", "sub/2fa.js", "9", "a-b.css", "x.y.z", "sub/7/8.txt", "7up/logo.png", "_.css", "sub/if.js"]
+    wsc = []; wto = ["lib", "", "1.0", "v/1", "9"]
+    for to in wto:
+        wsc.append([('W', 'st/' + f, f.encode()) for f in wfiles] + [('R', [('s',), ('t', 'st', to)])])
+    for to, sc, r in zip(wto, wsc, build_lib.run_scenarios(wsc)):
+        chk.count(("walk " + build_lib.scenario_line(sc)).encode(), True)
+        st = ((([x for x in r["runs"] if x["kind"] == "R"] or [{}])[0].get("after") or {}).get(b"templates/statics.rs") or (b"", ""))[0] or b""
+        got = dict((n, i) for i, n in re.findall(rb'\npub static ([^:\s]+): StaticFile = StaticFile \{\n  content: [^\n]*\n  name: "((?:[^"\\]|\\.)*)",\n', st))
+        for f in wfiles:
+            url = (to + "/" + f) if to else f
+            if got.get(url.encode()) != py_ident(url).encode():
+                oracle_fail.append((build_lib.scenario_line(sc), "add_files_as(st, %r): the item published as %r is called %r, the rule gives %r" % (to, url, (got.get(url.encode()) or b"<missing>").decode(), py_ident(url)), None)); break
+    # identifiers that begin like a template keyword: `@if_ie_css.name` is an expression naming the item, not the start of a block
+    from tmpl_checks import compile_pairs, decode_outcome
+    kw_names = ["if-ie.css", "for-print.css", "match.js", "if.css", "for_.js", "matches.png", "else-x.css", "in.txt", "iffy.css", "format.css", "if_.x", "match_.rs", "for.ever"]
+    kw = [(nm, hashed_ident(nm)) for nm in kw_names]
+    named = [("k%d_html" % i, ("@()\n<link href=\"/static/@%s.name\">" % ident).encode()) for i, (nm, ident) in enumerate(kw)]
+    impl, model = compile_pairs(named)
+    for (nm, ident), (_, src), a, m in zip(kw, named, impl, model):
+        chk.count(src, True)
+        stt, code = decode_outcome(a)
+        if stt != "OK" or (ident + ".name.to_html(").encode() not in code:
+            oracle_fail.append(([("D", nm, b"x")], "the item of %r is called %s, and a template that names it as @%s.name is %s" % (nm, ident, ident, "rejected: " + code.decode("utf8", "replace")[:200] if stt != "OK" else "accepted but does not emit the expression"), None))
+        elif a != m:
+            disagree.append(([("D", nm, b"x")], "template naming the item", a[:300], m[:300]))
     asc_hist = [h for h in hist if all((op[2] if op[0] == "A" else op[1]).isascii() for op in h)]
     B = 120
     for s in range(0, len(asc_hist), B):
